@@ -3,7 +3,7 @@ import Aoe.Model.Trig
 /-!
 Shared driver of C06 and C07 (one model, one command set).  One command line in, one observation line out.
 
-  mode <remove-fixed 0|1> <tree-fixed 0|1> → ok           (which variant of the two recorded defects F4 / F15 the model uses)
+  mode <F4 0|1> <F15 0|1> <F5 0|1>        → ok            (which recorded defects are repaired in the tree: model variant)
   reset                                   → ok            (a fresh empty manager, `tm.triggers = []`)
   init <n> <effs> <order|->               → OBS           (n × add, effects, then `trigger_display_order = order`)
   add                                     → OBS
@@ -186,10 +186,10 @@ def oaStep (s : St) (op : OAOp) : St × String :=
 
 def step (s : St) (line : String) : St × String :=
   match words line with
-  | ["mode", a, b] =>
-    match a.toNat?, b.toNat? with
-    | some a, some b => ({ s with fx := ⟨a != 0, b != 0⟩ }, "ok")
-    | _, _ => (s, "bad-op")
+  | ["mode", a, b, c] =>
+    match a.toNat?, b.toNat?, c.toNat? with
+    | some a, some b, some c => ({ s with fx := ⟨a != 0, b != 0, c != 0⟩ }, "ok")
+    | _, _, _ => (s, "bad-op")
   | ["reset"] => ({ s with tm := TM.empty, ren := [] }, "ok")
   | ["init", n, effs, order] =>
     match n.toNat?, (if effs == "-" then some [] else (effs.splitOn "|").mapM parseEffs),
